@@ -1,7 +1,7 @@
 # Driver configuration for property C01
 PROP = dict(
     pkg="c01", level="exploration",
-    technique="model-based PBT: recursive reference MPT + abstract-state model (validated on mainnet fixtures), differential legacy vs trie2, insertion-order metamorphic relation, commit sizes drawn around the size thresholds of the implementations",
+    technique="model-based PBT: recursive reference MPT + abstract-state model (validated on mainnet fixtures), differential legacy vs trie2, insertion-order metamorphic relation, commit sizes drawn around the size thresholds of the implementations; differential test of the hash primitives against independent implementations",
     level_text=("Exploration: generated trie operation sequences and generated chains of state diffs (4 protocol versions, 2 state backends, "
                 "memory/Pebble with restarts) are compared with a reference commitment computed by plain recursion on the key set; "
                 "blocks are sealed with the reference root so any disagreement surfaces as a rejected valid block. A drawn fraction of the "
@@ -17,11 +17,11 @@ PROP = dict(
           "the trie2 node's contract records optionally rewritten between blocks in the storage-root-less format the head-state migration writes; "
           "1 chain in 20 contains blocks giving one trie exactly n updates (n around 100 as above): n slots of one contract, n touched contracts, "
           "n class-trie leaves, overwrite/delete of an existing large storage, followed by restart or a new Blockchain object and later blocks "
-          "touching the same tries; (c) temporary-trie backends for block commitments, 1 block in 12 with 99..300 transactions or events. "
+          "touching the same tries; (c) temporary-trie backends for block commitments, 1 block in 12 with 99..300 transactions or events; (d) hash primitives (Pedersen, Poseidon/Hades, Starknet keccak, felt arithmetic) against independent implementations, operands biased to 2^248 / 2^251 / P-1 / byte boundaries. "
           "Non-trivial = structural trie event (edge split, collapse, re-insert after delete, zero write to absent key, reopen between updates), "
           "commit above the threshold / multi-block chain with a structural diff or with a block above the threshold followed by more blocks; "
           "distinct = SHA-256 of the rendered op sequence."),
-    assumptions=["felt arithmetic and Pedersen/Poseidon primitives trusted (reference model calls them)",
+    assumptions=["the reference models CALL core/felt and core/crypto (Pedersen, Poseidon, Starknet keccak); these are themselves checked by TestPropHashPrimitives against gnark-crypto's pedersenhash, the defining Pedersen formula with generic scalar multiplication, a math/big Hades/sponge with the harness's own copy of the spec constants, masked Keccak-256 and math/big field arithmetic; trusted below that: gnark-crypto's curve/field arithmetic, x/crypto sha3, math/big",
                  "reference model self-validated on mainnet state updates 0-2 at start (failure = exit 2)",
                  "sequencer guarantees documented in core/state_update.go respected by the generator",
                  "keys/values of the large batches are a deterministic function (splitmix64) of drawn parameters (count, shape, 64-bit seed)"],
